@@ -102,6 +102,7 @@ func ruleT1(w *world.World, r *report.RuleResult) {
 
 // sameOrPhiOf: x is v, or both are loads of the same local, or v is a phi one of whose edges is x... (conservative).
 func sameOrPhiOf(x, v ssa.Value) bool {
+	x, v = world.Forward(x), world.Forward(v)
 	if x == v {
 		return true
 	}
